@@ -48,7 +48,7 @@ fn targeted_le_source(r: &mut StdRng) -> Files {
     let n = r.gen_range(2..8);
     for _ in 0..n {
         let ws = ["", "  ", "\t"][r.gen_range(0..3)];
-        match r.gen_range(0..8) {
+        match r.gen_range(0..9) {
             0 => s.push_str(&format!("text{b}")),
             1 => s.push_str(&format!("{ws}-TXTPP#include opp.txt{b}")),
             2 => s.push_str(&format!("{ws}-TXTPP#run printf 'p1{}p2{}'{b}", if crlf_first { "\\n" } else { "\\r\\n" }, if crlf_first { "\\n" } else { "\\r\\n" })),
@@ -56,11 +56,53 @@ fn targeted_le_source(r: &mut StdRng) -> Files {
             4 => s.push_str(&format!("// TXTPP#tag TG{b}-TXTPP#include opp.txt{b}x TG y{b}")),
             5 => s.push_str(&format!("{ws}// TXTPP#write w1{b}{ws}// w2{b}{ws}//{b}")),
             6 => s.push_str(&format!("// TXTPP#tag TG{b}-TXTPP#run printf 'q1{}q2'{b}{b}<TG>{b}", if crlf_first { "\\n" } else { "\\r\\n" })),
+            7 => s.push_str(&format!("// TXTPP#tag TG{b}-TXTPP#include {}{b}x TG y{b}", ["inc_mix_lf_first.txt", "inc_mix_crlf_first.txt", "inc_mixed.txt"][r.gen_range(0..3)])),
             _ => s.push_str(&format!("{ws}-TXTPP#include inc_mixed.txt{b}tail{a}")),
         }
     }
     files.insert("le.txt.txtpp".into(), s.into_bytes());
     files
+}
+
+/// all line endings of a text converted to the other kind
+fn flip_endings(b: &[u8]) -> Vec<u8> {
+    let t = String::from_utf8_lossy(b).to_string();
+    if t.contains("\r\n") {
+        t.replace("\r\n", "\n").into_bytes()
+    } else {
+        t.replace('\n', "\r\n").into_bytes()
+    }
+}
+
+/// history: build, convert the line endings of every source, build again in the same directory
+fn check_c12_history(ctx: &mut Ctx, case: &ProjectCase) {
+    let root = ctx.scratch.fresh();
+    let first = crate::props::common::run_project_at(ctx, case, &root, false);
+    if !first.outcome.verdict.is_ok() || first.expect.out_of_domain.is_some() {
+        ctx.scratch.discard(&root);
+        return;
+    }
+    let mut flipped = case.clone();
+    for s in model::sources(&case.files) {
+        flipped.files.insert(s.clone(), flip_endings(&case.files[&s]));
+    }
+    let second = crate::props::common::run_project_at(ctx, &flipped, &root, false);
+    ctx.count("histories_with_converted_source_endings", 1);
+    if second.outcome.verdict.is_ok() && second.expect.out_of_domain.is_none() {
+        for (src, le) in &second.expect.built.le {
+            let mut gens: Vec<String> = vec![model::output_of(src).unwrap()];
+            gens.extend(second.expect.built.temp_owner.iter().filter(|(_, o)| *o == src).map(|(t, _)| t.clone()));
+            for g in gens {
+                if let Some(e) = second.after.files.get(&g) {
+                    if let Some(i) = scan_le(&e.bytes, le) {
+                        ctx.violation("C12:after-ending-conversion", format!("{g}: source {src} was converted to {le:?} endings and rebuilt in place, but byte {i} still breaks the single line ending: {}", show(&e.bytes)), flipped.to_json());
+                    }
+                }
+            }
+        }
+        ctx.distinct.insert(case.hash().rotate_left(5));
+    }
+    ctx.scratch.discard(&root);
 }
 
 fn check_c12(ctx: &mut Ctx, case: &ProjectCase) {
@@ -121,6 +163,9 @@ fn run_c12(ctx: &mut Ctx) {
             c
         };
         check_c12(ctx, &case);
+        if i % 5 == 0 {
+            check_c12_history(ctx, &case);
+        }
         if i == 0 {
             ctx.sample(|| json!({"source": String::from_utf8_lossy(&case.files["le.txt.txtpp"])}));
         }
